@@ -1,5 +1,6 @@
 import Litep2pVerif.Proofs.Noise.Transport
 import Litep2pVerif.Proofs.Noise.Align
+import Litep2pVerif.Proofs.Noise.Teardown
 import Litep2pVerif.Generated.Consts
 /-!
 # C02 — Noise transport delivers the exact byte stream or fails
@@ -287,6 +288,120 @@ theorem write_read_roundtrip {C : Type} (w : WireOps C) (F W : Nat) (hF : 1 ≤ 
 /-- Non-vacuity: in the initial state a flush succeeds at once (nothing to write). -/
 example : ∃ k, (pollFlush (newWriteSock (realParams 5 2) (termWire 16)) ⟨#[], []⟩).2.2 = .ok k := ⟨0, rfl⟩
 
+/-- **flush_delivers_everything_accepted.** `poll_flush` = drain the encrypt buffer, then the carrier's own
+`poll_flush` (`pollFlushE`). From every reachable writer state (`WSInv`: `wpos` bytes accepted by `poll_write` so far,
+in `frames`; see `write_stream_eq`) and for **every schedule of carrier answers** — `e.wc.script` for the inner
+`poll_write`s (partial writes, `Pending`, `Ok(0)`, errors), `e.fscript` for the inner `poll_flush` (`Pending`, error):
+
+1. a poll never panics and keeps the invariant unless it reports an error;
+2. a `Pending` is the `Pending` of an inner `poll_write` or of the inner `poll_flush` (the call that registered the
+   waker) — never an invention of the socket;
+3. however many times the caller polls (`flushRun n` = poll while `Pending`, at most `n` times): when `Ready(Ok)`
+   comes back, the carrier has accepted **the complete wire image of all `wpos` bytes `poll_write` ever accepted**,
+   nothing is left in the encrypt buffer, and the carrier's own flush completed after its last write;
+4. if the carrier never fails, `Ready(Ok)` comes after at most one poll per scripted answer plus one, i.e. as soon as
+   the carrier accepts the bytes. -/
+theorem flush_delivers_everything_accepted {C : Type} (w : WireOps C) (F W : Nat)
+    (s : WriteSock C) (e : WEnv C) (frames : List Chunk) (wpos : Nat)
+    (h : WSInv (realParams F W) w s e.wc frames wpos) :
+    (∀ m, (pollFlushE s e).2.2 ≠ .panic m) ∧
+    ((∀ x, (pollFlushE s e).2.2 ≠ .err x) →
+      WSInv (realParams F W) w (pollFlushE s e).1 (pollFlushE s e).2.1.wc frames wpos) ∧
+    ((pollFlushE s e).2.2 = .pending →
+      (drain (drainFuel s) s e.wc).2.2 = .blocked ∨ e.fscript.head? = some .pend) ∧
+    (∀ n k, (flushRun n s e).2.2 = .ok k →
+      (flushRun n s e).2.1.wc.out.toList = wireOf w (realParams F W).T 0 frames ∧ plen frames = wpos ∧
+      (flushRun n s e).1.st = .idle ∧ (flushRun n s e).2.1.flushed = (flushRun n s e).2.1.wc.out.size) ∧
+    (GoodWEnv e → ∃ k, (flushRun (e.todo + 1) s e).2.2 = .ok k) := by
+  have fp := pollFlushE_spec (realParams F W) w s e frames wpos h
+  refine ⟨fp.nopanic, fp.keep, fun hp => (fp.pend hp).1, fun n k hk => ?_, fun g => ?_⟩
+  · have := (flushRun_spec (realParams F W) w frames wpos n s e h).2.1 k hk
+    exact ⟨this.1, h.total, this.2⟩
+  · exact (flushRun_spec (realParams F W) w frames wpos (e.todo + 1) s e h).2.2 g (Nat.lt_succ_self _)
+
+/-- Non-vacuity: a fresh writer over a carrier that stalls, takes 3 bytes, stalls again, and whose own flush is
+`Pending` once, is a reachable state with a carrier that never fails; and `flushRun` really polls: with that carrier
+the first two polls of an (empty) flush are `Pending`, the third is `Ok`. -/
+example : WSInv (realParams 5 2) (termWire 16) (newWriteSock (realParams 5 2) (termWire 16))
+    (⟨⟨#[], [.pend, .acc 3, .pend]⟩, [.pend], [.pend], 0, false⟩ : WEnv TCell).wc [] 0 :=
+  ⟨⟨by simp [newWriteSock], trivial⟩, trivial, rfl, rfl, by simp [wtail, newWriteSock, wireOf]⟩
+example : GoodWEnv (⟨⟨#[], [.pend, .acc 3, .pend]⟩, [.pend], [.pend], 0, false⟩ : WEnv TCell) :=
+  ⟨by simp [NoFault, GoodW], by simp [GoodF], by simp [GoodF]⟩
+example : (flushRun 1 (⟨#[], .idle, 0⟩ : WriteSock TCell) ⟨⟨#[], []⟩, [.pend], [], 0, false⟩).2.2 = .pending ∧
+    (flushRun 2 (⟨#[], .idle, 0⟩ : WriteSock TCell) ⟨⟨#[], []⟩, [.pend], [], 0, false⟩).2.2 = .ok 0 := by
+  decide
+
+/-- **close_delivers_everything_accepted.** `poll_close` = `ready!(poll_flush)?`, then the carrier's `poll_close`
+(`pollCloseE`). From every reachable writer state whose carrier is still open, for every schedule of carrier answers
+(`e.wc.script`, `e.fscript`, `e.cscript`):
+
+1. a poll never panics and keeps the invariant unless it reports an error; a `Pending` is a `Pending` of the carrier;
+2. the carrier's write half gets closed **only** by a poll that returns `Ready(Ok)` — never while the flush is
+   `Pending` or failed (`closeRun n` = poll while `Pending`, at most `n` times);
+3. when `Ready(Ok)` comes back the carrier has accepted the complete wire image of **all `wpos` bytes `poll_write` ever
+   accepted**, nothing is left in the encrypt buffer, the carrier is closed — and a reader fed with exactly these bytes by
+   a carrier that never fails (any chunking, any `Pending`s) obtains exactly the plaintext `0 … wpos-1`: in order, no
+   loss, no duplication (via `read_stream_eq`);
+4. if the carrier never fails, `Ready(Ok)` comes after at most one poll per scripted answer plus one. -/
+theorem close_delivers_everything_accepted {C : Type} (w : WireOps C) (F W : Nat)
+    (s : WriteSock C) (e : WEnv C) (frames : List Chunk) (wpos : Nat)
+    (h : WSInv (realParams F W) w s e.wc frames wpos) (hopen : e.closed = false) :
+    (∀ m, (pollCloseE s e).2.2 ≠ .panic m) ∧
+    ((∀ x, (pollCloseE s e).2.2 ≠ .err x) →
+      WSInv (realParams F W) w (pollCloseE s e).1 (pollCloseE s e).2.1.wc frames wpos) ∧
+    ((pollCloseE s e).2.2 = .pending →
+      (drain (drainFuel s) s e.wc).2.2 = .blocked ∨ e.fscript.head? = some .pend ∨ e.cscript.head? = some .pend) ∧
+    (∀ n, (closeRun n s e).2.1.closed = true → ∃ k, (closeRun n s e).2.2 = .ok k) ∧
+    (∀ n k, (closeRun n s e).2.2 = .ok k →
+      (closeRun n s e).2.1.wc.out.toList = wireOf w (realParams F W).T 0 frames ∧ plen frames = wpos ∧
+      (closeRun n s e).1.st = .idle ∧ (closeRun n s e).2.1.closed = true ∧
+      (1 ≤ F → WireLaws (realParams F W) w → Authentic w frames (wireOf w (realParams F W).T 0 frames) →
+        ∀ es : List (REvent C), delivered es = (closeRun n s e).2.1.wc.out.toList → GoodEnv es →
+        ∀ ks : List Nat, (∀ k ∈ ks, 1 ≤ k) → wpos + scriptLen es ≤ ks.length →
+          outBytes (freshRun (realParams F W) w (es ++ ks.map .poll)) = List.range wpos)) ∧
+    (GoodWEnv e → ∃ k, (closeRun (e.todo + 1) s e).2.2 = .ok k) := by
+  have cp := pollCloseE_spec (realParams F W) w s e frames wpos h
+  refine ⟨cp.nopanic, cp.keep, fun hp => (cp.pend hp).1, fun n => ?_, fun n k hk => ?_, fun g => ?_⟩
+  · exact (closeRun_spec (realParams F W) w frames wpos n s e h hopen).2.1
+  · have := (closeRun_spec (realParams F W) w frames wpos n s e h hopen).2.2.1 k hk
+    refine ⟨this.1, h.total, this.2.1, this.2.2, fun hF hl hauth es hd hge ks hks hlen => ?_⟩
+    have hr := (read_stream_eq w F W hF hl frames h.frs hauth es).2 (by rw [hd, this.1]) hge
+    rw [h.total] at hr
+    exact hr.2 ks hks hlen
+  · exact (closeRun_spec (realParams F W) w frames wpos (e.todo + 1) s e h hopen).2.2.2 g (Nat.lt_succ_self _)
+
+/-- Non-vacuity: teardown under back-pressure in the small — something waits in the encrypt buffer (`Writing 0..2`), the
+carrier answers `Pending` to the first inner write: the first `poll_close` is `Pending` and leaves the carrier open with
+nothing written; the second one writes the two bytes, closes the carrier and returns `Ok`. -/
+example :
+    let s : WriteSock TCell := ⟨#[.raw 0, .raw 7], .writing 0 2, 0⟩
+    let e : WEnv TCell := ⟨⟨#[], [.pend]⟩, [], [], 0, false⟩
+    (closeRun 1 s e).2.2 = .pending ∧ (closeRun 1 s e).2.1.closed = false ∧ (closeRun 1 s e).2.1.wc.out = #[] ∧
+    (closeRun 2 s e).2.2 = .ok 0 ∧ (closeRun 2 s e).2.1.closed = true ∧
+    (closeRun 2 s e).2.1.wc.out = #[.raw 0, .raw 7] := by
+  decide
+
+/-- **write_pending_registered.** No lost wake-up on the write path: for every `W ≥ 1`, from every reachable writer
+state and for every behaviour of the carrier, `poll_write` answers `Pending` only if, in this very call, the encrypt
+buffer could not be drained because the inner `poll_write` answered `Pending` (the call that registered the caller's
+waker) — the claim of the comment at `if total_plaintext == 0` in the code; a socket that returned `Pending` on its own
+would never be polled again. (The same fact for `poll_flush` / `poll_close` is item 2 of the two theorems above.) -/
+theorem write_pending_registered {C : Type} (w : WireOps C) (F W : Nat) (hW : 1 ≤ W)
+    (s : WriteSock C) (c : WCarrier C) (frames : List Chunk) (wpos n : Nat)
+    (h : WSInv (realParams F W) w s c frames wpos)
+    (hp : (pollWrite (realParams F W) w s c wpos n).2.2 = .pending) :
+    (drain (drainFuel s) s c).2.2 = .blocked :=
+  pollWrite_pending_blocked (realParams F W) w (real_params_ok F W).1 hW s c wpos n h.inv hp
+
+/-- Non-vacuity: with `W = 1`, a full frame waiting in the encrypt buffer and a carrier that answers `Pending`, a second
+write is `Pending` (and the drain was `blocked`); hypotheses and conclusion on a small instance of the same shape. -/
+example :
+    let P : Params := { M := 20, TAG := 16, SNOWMAX := 20, T := 16, F := 1, W := 1 }
+    let s : WriteSock TCell := ⟨Array.replicate 22 (.raw 0), .writing 0 22, 1⟩
+    (pollWrite P (termWire 16) s ⟨#[], [.pend]⟩ 4 4).2.2 = .pending ∧
+    (drain (drainFuel s) s ⟨#[], [.pend]⟩).2.2 = .blocked := by
+  decide
+
 #print axioms term_model_laws
 #print axioms real_params_ok
 #print axioms write_total_old_constant_witness
@@ -298,5 +413,8 @@ example : ∃ k, (pollFlush (newWriteSock (realParams 5 2) (termWire 16)) ⟨#[]
 #print axioms tamper_cases
 #print axioms tamper_instances
 #print axioms write_read_roundtrip
+#print axioms flush_delivers_everything_accepted
+#print axioms close_delivers_everything_accepted
+#print axioms write_pending_registered
 
 end Litep2pVerif.Props.C02
